@@ -50,6 +50,10 @@ func (w *ResponseWriter) WriteHeader(code int) {
 // Flush implements the standard http.Flusher interface.
 func (w *ResponseWriter) Flush() {
 	if flusher, ok := w.Origin.(http.Flusher); ok {
+		if w.Status == 0 {
+			// flushing sends the header: the implicit 200 is out, as with Write
+			w.Status = http.StatusOK
+		}
 		flusher.Flush()
 	}
 }
@@ -57,8 +61,14 @@ func (w *ResponseWriter) Flush() {
 // FlushError attempts to invoke FlushError() of the standard http.ResponseWriter.
 func (w *ResponseWriter) FlushError() error {
 	if flusher, ok := w.Origin.(interface{ FlushError() error }); ok {
+		if w.Status == 0 {
+			w.Status = http.StatusOK
+		}
 		return flusher.FlushError()
 	} else if flusher, ok := w.Origin.(http.Flusher); ok {
+		if w.Status == 0 {
+			w.Status = http.StatusOK
+		}
 		flusher.Flush()
 	}
 	return nil
